@@ -21,7 +21,24 @@ import (
 	"github.com/B1NARY-GR0UP/originium/types"
 )
 
+// Merge merges sorted lists into one sorted list without tombstones: of
+// entries with the same key the one from the later list wins, and keys whose
+// winning entry is a tombstone are left out. This is the view a scan wants;
+// compaction must use MergeAll, because a dropped tombstone would let an older
+// version of the key in another table become visible again.
 func Merge(lists ...[]types.Entry) []types.Entry {
+	var merged []types.Entry
+	for _, entry := range MergeAll(lists...) {
+		if entry.Tombstone {
+			continue
+		}
+		merged = append(merged, entry)
+	}
+	return merged
+}
+
+// MergeAll merges like Merge but keeps tombstones.
+func MergeAll(lists ...[]types.Entry) []types.Entry {
 	h := &Heap{}
 	heap.Init(h)
 
@@ -55,9 +72,6 @@ func Merge(lists ...[]types.Entry) []types.Entry {
 	var merged []types.Entry
 
 	for _, entry := range latest {
-		if entry.Tombstone {
-			continue
-		}
 		merged = append(merged, entry)
 	}
 
